@@ -3,6 +3,7 @@ use generic_array::{ArrayLength, GenericArray};
 use std::mem::{align_of, size_of};
 
 pub struct Rec {
+    pub len: u64,
     pub n: u64,
     pub size: u64,
     pub align: u64,
@@ -10,7 +11,7 @@ pub struct Rec {
     pub nalign: u64,
 }
 pub fn r<T, N: ArrayLength, const C: usize>() -> Rec {
-    Rec { n: N::U64, size: size_of::<GenericArray<T, N>>() as u64, align: align_of::<GenericArray<T, N>>() as u64, nsize: size_of::<[T; C]>() as u64, nalign: align_of::<[T; C]>() as u64 }
+    Rec { len: GenericArray::<T, N>::len() as u64, n: N::U64, size: size_of::<GenericArray<T, N>>() as u64, align: align_of::<GenericArray<T, N>>() as u64, nsize: size_of::<[T; C]>() as u64, nalign: align_of::<[T; C]>() as u64 }
 }
 pub fn rbig<T, N: ArrayLength, const C: usize>() -> Rec {
     r::<T, N, C>()
@@ -63,8 +64,8 @@ pub fn run(tier: &str, out: &mut dyn std::io::Write) {
             if quick && n > 64 && !(n.is_power_of_two() || (n + 1).is_power_of_two() || n == 97 || n == 1000 || n % 1000 == 0 && n > 1024 && n < 2048) && n <= 1024 {
                 continue;
             }
-            writeln!(out, "{{\"ev\":\"layout\",\"ty\":\"{}\",\"tsize\":{},\"talign\":{},\"n\":{},\"size\":{},\"align\":{},\"nsize\":{},\"nalign\":{}}}",
-                name, tsize, talign, limbs(rec.n), limbs(rec.size), rec.align, limbs(rec.nsize), rec.nalign).unwrap();
+            writeln!(out, "{{\"ev\":\"layout\",\"ty\":\"{}\",\"tsize\":{},\"talign\":{},\"n\":{},\"size\":{},\"align\":{},\"nsize\":{},\"nalign\":{},\"len\":{}}}",
+                name, tsize, talign, limbs(rec.n), limbs(rec.size), rec.align, limbs(rec.nsize), rec.nalign, limbs(rec.len)).unwrap();
             k += 1;
         }
         let _ = k;
